@@ -41,21 +41,31 @@ def rule_R1(chk, repo):
     common_asserts = [s for s in merge.node.body if isinstance(s, ast.Assert)][:1]
     if not seen_return or not fusing_asserts:
         raise AnalysisError('merge_edges: parallel-edge early return / fusion asserts not found')
-    e1, e2, d = 'edge1', 'edge2', 'direction'
-    up1 = f'self.nodes[self.edges[eid1].nids[1 - direction]]'
-    up2 = f'self.nodes[self.edges[eid2].nids[1 - direction]]'
-    spec = {
-        'equal operators': 'self.edges[eid1].opics == self.edges[eid2].opics',
-        'single input edge (node 1)': f'1 == len({up1}.eids[direction])',
-        'single input edge (node 2)': f'1 == len({up2}.eids[direction])',
-        'equal quantum numbers': f'{up1}.qnum == {up2}.qnum',
-    }
+    fm = merge.params          # self, eid1, eid2, direction
+
+    def spec_for(call):
+        a1, a2, d = [norm(x) for x in call.args[:3]]
+        up1 = f'self.nodes[self.edges[{a1}].nids[1 - {d}]]'
+        up2 = f'self.nodes[self.edges[{a2}].nids[1 - {d}]]'
+        return {
+            'equal operators': f'self.edges[{a1}].opics == self.edges[{a2}].opics',
+            'single input edge (node 1)': f'1 == len({up1}.eids[{d}])',
+            'single input edge (node 2)': f'1 == len({up2}.eids[{d}])',
+            'equal quantum numbers': f'{up1}.qnum == {up2}.qnum',
+        }, f'self.edges[{a1}].nids[1 - {d}] == self.edges[{a2}].nids[1 - {d}]'
+
+    def formal_to_actual(test, call):
+        import copy as _c
+        from ..canon import _Ren
+        from ..defuse import expand
+        t = expand(test, mdefs)
+        m = {f: norm(a) for f, a in zip(fm[1:4], call.args[:3]) if isinstance(a, ast.Name)}
+        return _Ren(m).visit(_c.deepcopy(t))
 
     def canon_text(s):
         # symmetric comparison ordering as in canon_cond
         l, op, r = s.partition(' == ')
         return f'{min(l, r)} == {max(l, r)}' if op else s
-    spec = {k: canon_text(v) for k, v in spec.items()}
     n = 0
     fusing_seen = False
     for c in calls:
@@ -63,7 +73,9 @@ def rule_R1(chk, repo):
         if conds is None:
             raise AnalysisError('_simplify_step: could not locate merge_edges call in the statement tree')
         conds = set(conds)
-        par = canon_text('self.edges[eid1].nids[1 - direction] == self.edges[eid2].nids[1 - direction]')
+        spec, par = spec_for(c)
+        spec = {k: canon_text(v) for k, v in spec.items()}
+        par = canon_text(par)
         if par in conds:
             chk.ob(rid, where(repo, step, c), 'parallel-edge merge is guarded by equal upstream nodes', True, par,
                    key=f'{rid}|parallel')
@@ -77,7 +89,7 @@ def rule_R1(chk, repo):
                    key=f'{rid}|spec|{name}')
             n += 1
         for a in fusing_asserts:
-            text = canon_cond(a.test, mdefs)
+            text = canon_cond(formal_to_actual(a.test, c), {})
             ok = text in conds
             chk.ob(rid, where(repo, merge, a), f'assert of merge_edges is implied by the guard: {norm(a.test)[:60]}',
                    ok, text if ok else f'`{text}` not among the dominating conditions', key=f'{rid}|assert|{text}')
@@ -319,7 +331,10 @@ def rule_R5(chk, repo):
     ok = False
     if par:
         calls = [c for x in par[0].body for c in ast.walk(x) if isinstance(c, ast.Call)]
-        ok = any(pmatch('edge1.add(edge2)', c) is not None for c in calls)
+        e1 = [k for k, v in local_defs(merge.node, keep_ctor_calls=True).items() if norm(v) == f'self.edges[{merge.params[1]}]']
+        e2 = [k for k, v in local_defs(merge.node, keep_ctor_calls=True).items()
+              if norm(v) in (f'self.edges.pop({merge.params[2]})', f'self.edges[{merge.params[2]}]')]
+        ok = bool(e1) and bool(e2) and any(pmatch(f'{e1[0]}.add({e2[0]})', c) is not None for c in calls)
     chk.ob(rid, where(repo, merge, par[0] if par else merge.node), 'merge_edges: parallel edges are merged by adding the operators '
            'of the removed edge to the kept edge', ok, '', key=f'{rid}|parallel-add')
     fi = repo.func('opgraph.OpGraphEdge.add')
@@ -332,18 +347,27 @@ def rule_R5(chk, repo):
            'entry (coefficients summed) or appended; the list stays sorted', len(hits) == 1 and len(keep) >= 1 and len(srt) == 1
            and len(src) == 1, '', key=f'{rid}|edge-add')
     # node fusing path: redirect + append
+    D_ = merge.params[3]
+    ld = local_defs(merge.node, keep_ctor_calls=True)
+    e1n = [k for k, v in ld.items() if norm(v) == f'self.edges[{merge.params[1]}]']
+    e2n = [k for k, v in ld.items() if norm(v) in (f'self.edges.pop({merge.params[2]})', f'self.edges[{merge.params[2]}]')]
+    n1 = [k for k, v in ld.items() if e1n and norm(v) == f'self.nodes[{e1n[0]}.nids[1 - {D_}]]']
+    n2 = [k for k, v in ld.items() if e2n and norm(v) in (f'self.nodes.pop({e2n[0]}.nids[1 - {D_}])',
+                                                           f'self.nodes[{e2n[0]}.nids[1 - {D_}]]')]
+    N1 = n1[0] if n1 else 'node1'
+    N2 = n2[0] if n2 else 'node2'
     redir = [s for s in ast.walk(merge.node) if isinstance(s, ast.Assign) and
-             pmatch('self.edges[__e].nids[direction]', s.targets[0]) is not None and norm(s.value) == 'node1.nid']
-    loop = [l for l in ast.walk(merge.node) if isinstance(l, ast.For) and norm(l.iter) == 'node2.eids[1 - direction]']
+             pmatch(f'self.edges[__e].nids[{D_}]', s.targets[0]) is not None and norm(s.value) == f'{N1}.nid']
+    loop = [l for l in ast.walk(merge.node) if isinstance(l, ast.For) and norm(l.iter) == f'{N2}.eids[1 - {D_}]']
     defs = local_defs(merge.node, keep_ctor_calls=True)
     app = [s for s in ast.walk(merge.node) if isinstance(s, ast.AugAssign) and isinstance(s.op, ast.Add) and
-           norm(s.value) == 'node2.eids[1 - direction]']
+           norm(s.value) == f'{N2}.eids[1 - {D_}]']
     okapp = False
     if len(app) == 1 and isinstance(app[0].target, ast.Name):
         d_ = [x for x in ast.walk(merge.node) if isinstance(x, ast.Assign) and norm(x.targets[0]) == app[0].target.id]
-        okapp = len(d_) == 1 and norm(d_[0].value) == 'node1.eids[1 - direction]'
+        okapp = len(d_) == 1 and norm(d_[0].value) == f'{N1}.eids[1 - {D_}]'
     elif len(app) == 1:
-        okapp = norm(app[0].target) == 'node1.eids[1 - direction]'
+        okapp = norm(app[0].target) == f'{N1}.eids[1 - {D_}]'
     chk.ob(rid, where(repo, merge, merge.node), 'merge_edges: every edge leaving the removed node is redirected to the kept node '
            'and listed there', len(redir) == 1 and len(loop) == 1 and okapp, '', key=f'{rid}|fuse')
     chk.floor(rid, 3, 3)
